@@ -18,6 +18,7 @@ LEVEL_TEXT = (
     'not a Notify (the catch-all that launders them into NOTIFICATION 1/0 does not hide them) and counts interpreter calls per decoded '
     'byte; on the wire the outcome is "session continues" or one NOTIFICATION with a defined (code, subcode); afterwards the speaker still '
     'reports a benign UPDATE or answers an API command (not wedged); bodies valid by construction are never refused.'
+    ' Session kinds include `local-as auto` and peers writing their OPEN in the RFC 9072 extended format; a session that only sent its well-formed OPEN and is answered with a NOTIFICATION counts as a refused valid message.'
 )
 LEVEL_NOTE = 'trusts: the work measure (Python-level calls during Message.unpack, bound 4000 + 160 per body byte) as a proxy for time; the table of defined NOTIFICATION codes'
 DESIGN_REF = 'DESIGN.md section 5, C03'
